@@ -141,6 +141,42 @@ def judge(ctx, label, obj, specs, X, T, what):
     ctx.event('outside:warned')
 
 
+def judge_array(ctx, obj, specs, what):
+    """Cp/R for an ARRAY of temperatures (the correlations vectorise it): an array with one element outside the range of a
+    constituent that has Cp data must raise, like the scalar request for that element; an array inside every range must
+    come back as finite numbers of the same shape"""
+    if not all(has_prop(s, 'CpoR') for s in specs):
+        return
+    eff = [TG.effective_range(s) for s in specs]
+    if any(r is None for r in eff):
+        return
+    lo, hi = max(r[0] for r in eff), min(r[1] for r in eff)
+    if not (lo <= hi):
+        return
+    inside = [lo, 0.5 * (lo + hi), hi]
+    res = evaluate(obj, 'CpoR', np.array(inside))
+    ctx.count()
+    ctx.event('array:inside')
+    if res[0] == 'raise':
+        ctx.fail('inside-range-raises:CpoR-array:%s' % type(res[1]).__name__, '[%s] CpoR(array(%r)) raised %s: %s although every element '
+                 'is inside every constituent range %s' % (what, inside, type(res[1]).__name__, res[1], eff))
+    else:
+        v = res[1]
+        if not (isinstance(v, np.ndarray) and v.shape == (3,) and np.all(np.isfinite(v))):
+            ctx.fail('inside-range-not-finite-real:CpoR-array', '[%s] CpoR(array(%r)) = %r' % (what, inside, v))
+    for out in (lo * (1 - 1e-9) if lo > 0 else -1e-9, hi * (1 + 1e-9), lo - 75.0, hi + 400.0, 0.0, -50.0):
+        if lo <= out <= hi:
+            continue
+        for arr in ([inside[1], out], [out, inside[1], inside[2]]):
+            res = evaluate(obj, 'CpoR', np.array(arr))
+            ctx.count()
+            ctx.event('array:one-element-outside')
+            if res[0] != 'raise':
+                ctx.fail('outside-range-returns-number:CpoR-array', '[%s] CpoR(array(%r)) = %r returned silently; %r is outside the '
+                         'common range [%r, %r] of constituents with Cp data' % (what, arr, res[1], out, lo, hi))
+                return
+
+
 # -- single correlations -------------------------------------------------------------------
 def single_case():
     return TG.group_spec(from_zero=True).map(lambda s: dict(kind='single', spec=s))
@@ -167,6 +203,7 @@ def check_single(ctx, case):
     for T in temps_for([eff], extra=[spec['T_ref']] + spec['Ts'][:2]):
         for X in PROPS:
             judge(ctx, 'single:%r' % (spec,), obj, [spec], X, T, 'single correlation %s' % _short(spec))
+    judge_array(ctx, obj, [spec], 'single correlation %s' % _short(spec))
 
 
 def _short(s):
@@ -189,7 +226,10 @@ def estimate_case(draw):
     if rel == 'identical' and n >= 2:
         specs[1] = dict(specs[0])
     cnts = [draw(TG.counts()) for _ in range(n)]
-    return dict(kind='estimate', specs=specs, counts=cnts, rel=rel)
+    grow = None
+    if draw(st.integers(0, 2)) == 0:
+        grow = dict(which=draw(st.integers(0, 5)), down=draw(st.sampled_from([0.0, 1.0, 40.0])), up=draw(st.sampled_from([0.0, 1.0, 150.0, 500.0])))
+    return dict(kind='estimate', specs=specs, counts=cnts, rel=rel, grow=grow)
 
 
 def check_estimate(ctx, case):
@@ -228,6 +268,41 @@ def check_estimate(ctx, case):
     for T in temps_for(ranges):
         for X in PROPS:
             judge(ctx, label, est, specs, X, T, 'estimate over %d constituents with ranges %s' % (len(specs), [TG.effective_range(s) for s in specs]))
+    judge_array(ctx, est, specs, 'estimate over %d constituents with ranges %s' % (len(specs), [TG.effective_range(s) for s in specs]))
+    # the library's data grows (a later file widens one group's declared range - ranges merge by union): an estimate
+    # asked for AFTERWARDS is over the groups as they are now
+    grow = case.get('grow')
+    ks = [k for k, s in enumerate(specs) if s['range']]
+    if grow and ks:
+        k = ks[grow['which'] % len(ks)]
+        old = specs[k]['range']
+        new = [old[0] - (grow['down'] if old[0] - grow['down'] > 0 else 0.0), old[1] + grow['up']]
+        donor = TG.build_library([dict(H=None, S=None, Ts=[], Cps=[], T_ref=specs[k]['T_ref'], range=new)], names=['G%d' % k])
+        try:
+            lib.Update(donor)
+            est2 = lib.Estimate(mapping, 'thermochem')
+        except Exception as e:
+            ctx.fail('estimate-after-update:%s' % type(e).__name__, 'Update() with a range-only entry %s for G%d, then Estimate, raised %s: %s'
+                     % (new, k, type(e).__name__, e))
+            return
+        specs2 = [dict(s) for s in specs]
+        specs2[k]['range'] = new
+        # names sharing the widened spec object (identical relation) are separate correlation objects in the library
+        declared2 = [tuple(s['range']) for s in specs2 if s['range']]
+        want2 = (max(r[0] for r in declared2), min(r[1] for r in declared2))
+        got2 = est2.get_range()
+        ctx.event('estimate:after-update')
+        ctx.count()
+        if got2 is None or got2[0] != want2[0] or got2[1] != want2[1]:
+            ctx.fail('estimate-range-not-intersection:after-update', 'after Update() widened G%d from %s to %s a new Estimate reports get_range() = %r, '
+                     'intersection of %s is %r' % (k, old, new, got2, declared2, want2))
+            return
+        if want2[0] <= want2[1]:
+            label2 = 'estimate-after-update:%r:%r' % (specs2, cnts)
+            for T in temps_for([TG.effective_range(s) for s in specs2] + [want2]):
+                for X in PROPS:
+                    judge(ctx, label2, est2, specs2, X, T, 'estimate (made after Update() widened G%d to %s) over ranges %s'
+                          % (k, new, [TG.effective_range(s) for s in specs2]))
 
 
 # -- shipped groups ----------------------------------------------------------------------------------
@@ -264,6 +339,7 @@ def check_shipped(ctx, case):
         for X in PROPS:
             judge(ctx, 'shipped:%s/%s' % (case['lib'], case['group']), g, [spec], X, T,
                   'shipped %s/%s %s' % (case['lib'], case['group'], _short(spec)))
+    judge_array(ctx, g, [spec], 'shipped %s/%s %s' % (case['lib'], case['group'], _short(spec)))
 
 
 def check_any(ctx, case):
